@@ -484,3 +484,17 @@ fn type_inet() {
         SocketAddr::new(IpAddr::V4(Ipv4Addr::new(127, 0, 0, 1)), 1)
     );
 }
+
+/// Verification hooks: thin pass-throughs to private items, no logic.
+#[cfg(feature = "scylla-verif")]
+pub mod verif_hooks {
+    /// `write_int_length`: whether the length was accepted; the bytes go to `buf`.
+    pub fn checked_int_length(v: usize, buf: &mut Vec<u8>) -> bool {
+        super::write_int_length(v, buf).is_ok()
+    }
+
+    /// `write_short_length`: whether the length was accepted; the bytes go to `buf`.
+    pub fn checked_short_length(v: usize, buf: &mut Vec<u8>) -> bool {
+        super::write_short_length(v, buf).is_ok()
+    }
+}
